@@ -40,10 +40,39 @@ DESC_DEFS = {
     "b/two": ("b/two", [("string", "note"), ("bytes", "blob")]),
     "a/uno": ("a/uno", [("string", "tag"), ("varint", "seq")]),
     "b/duo": ("b/duo", [("string", "note"), ("bytes", "blob")]),
+    # identifier-coincident pairs: SAME type name, DIFFERENT field lists, SAME 32-bit descriptor hash.  p/P, q/Q, r/R move
+    # characters between a field's type and the next field's name (the hash input is the plain concatenation); e/E is a true
+    # collision of the truncated SHA-256 (0x2b7a0550).  A record never nests both types of a pair.
+    "p": ("c17/co1", [("string", "tag"), ("varint", "seq"), ("string", "a"), ("string", "varintq")]),
+    "P": ("c17/co1", [("string", "tag"), ("varint", "seq"), ("varint", "astring"), ("string", "q")]),
+    "q": ("c17/co2", [("string", "tag"), ("varint", "seq"), ("wstring", "a")]),
+    "Q": ("c17/co2", [("string", "tag"), ("varint", "seq"), ("string", "aw")]),
+    "r": ("c17/co3", [("string", "tag"), ("varint", "seq"), ("uint16", "x"), ("string", "y")]),
+    "R": ("c17/co3", [("string", "tag"), ("varint", "seq"), ("string", "xuint16y")]),
+    "e": ("test/event", [("string", "f35453")]),
+    "E": ("test/event", [("string", "f30164"), ("varint", "n")]),
+    # free text with line-break characters for the CSV writer
+    "c": ("c17/c", [("string", "tag"), ("varint", "seq"), ("string", "note")]),
     # Avro refusal histories: out-of-range integer / unencodable text sit at non-first fields
     "v": ("c17/av", [("string", "tag"), ("varint", "seq"), ("varint", "big"), ("string", "text"), ("bytes", "blob")]),
 }
 GROUP_NAME = "c17/group"
+COINCIDENT_SHAPES = "pPqQrReE"
+COINCIDENT_PAIRS = [("p", "P"), ("q", "Q"), ("r", "R"), ("e", "E")]
+CSV_NOTES = ["plain", "a\rb", "a\r\nb", "trail\r", "x\ny", "\r", "q\"uote,comma", "two\r\rcr", "\rlead", "end\n", ""]
+
+
+def coincident_ok():
+    """The pairs really share their identifier on this tree (else the workload would not exercise anything)."""
+    return all(descriptor(a).identifier == descriptor(b).identifier and descriptor(a).get_field_tuples() != descriptor(b).get_field_tuples()
+               for a, b in COINCIDENT_PAIRS)
+
+
+def shapes_for(kind, grouped=True):
+    """Record shapes a writer workload draws from for this adapter kind."""
+    spec = KINDS[kind]
+    extra = {"stream": ("gG" if grouped else "") + COINCIDENT_SHAPES, "json": COINCIDENT_SHAPES}.get(spec["fam"], "")
+    return spec["shapes"] + extra
 
 # adapter kinds.  fam = reader family, codec = compression of the file, shapes = descriptor shapes the format can hold
 KINDS = {
@@ -56,7 +85,7 @@ KINDS = {
     "jsonfile": dict(fam="json", ext=".json", codec=None, scheme=None, shapes="xyz"),
     "avro": dict(fam="avro", ext=".avro", codec=None, scheme=None, shapes="x"),
     "sqlite": dict(fam="sqlite", ext=".db", codec=None, scheme="sqlite", shapes="xy"),
-    "csvfile": dict(fam="csv", ext=".csv", codec=None, scheme=None, shapes="xy"),
+    "csvfile": dict(fam="csv", ext=".csv", codec=None, scheme=None, shapes="xyc"),
     "line": dict(fam="line", ext=".txt", codec=None, scheme="line", shapes="xyz"),
     "text": dict(fam="text", ext=".txt", codec=None, scheme="text", shapes="xyz"),
 }
@@ -100,6 +129,19 @@ def _flat(rng, i, prefix="T"):
 def make_record(rng, i, shape, generated=None, extra=None):
     if shape == "x":
         r = _flat(rng, i)
+    elif shape in COINCIDENT_SHAPES:
+        tag = _tag(rng, i)
+        kw = {"pP": {"tag": tag, "seq": i}, "qQ": {"tag": tag, "seq": i}, "rR": {"tag": tag, "seq": i}}.get(
+            next((k for k in ("pP", "qQ", "rR") if shape in k), ""), {})
+        fill = {"a": "a%d" % rng.randrange(100), "varintq": "v%d" % rng.randrange(100), "astring": rng.randrange(-5, 10**6), "q": "q%d" % rng.randrange(100),
+                "aw": "w%d" % rng.randrange(100), "x": rng.randrange(65536), "y": "y%d" % rng.randrange(100), "xuint16y": "z%d" % rng.randrange(100),
+                "f35453": tag, "f30164": tag, "n": i}
+        for _, fname in DESC_DEFS[shape][1]:
+            if fname not in kw:
+                kw[fname] = fill[fname]
+        r = descriptor(shape)(**kw)
+    elif shape == "c":
+        r = descriptor("c")(tag=_tag(rng, i), seq=i, note=rng.choice(CSV_NOTES))
     elif shape in ("h", "t"):
         r = descriptor(shape)(tag=_tag(rng, i), seq=i, **(extra or {}))
     elif shape in "gG":
@@ -170,6 +212,10 @@ def ident(o):
         return (o[1], first[1], first[2])
     s = observe.slots_of(o)
     t, q = s.get("tag"), s.get("seq")
+    if "tag" not in s:
+        # shapes without a field called tag / seq (the true hash collision): the tag sits in the first text field, seq in n
+        t = next((v for k, v in o[3] if isinstance(v, list) and len(v) > 2 and isinstance(v[2], str) and TAG_RE.fullmatch(v[2])), None)
+        q = s.get("n")
     return (o[1], t[2] if isinstance(t, list) and len(t) > 2 else t, q[2] if isinstance(q, list) and len(q) > 2 else q)
 
 
@@ -295,7 +341,10 @@ def independent_read(fam, codec, path):
                 continue
             rd = v.get("_recorddescriptor")
             name = rd[0] if isinstance(rd, list) and rd else None
-            ids.append((name, v.get("tag"), v.get("seq")))
+            tag = v.get("tag")
+            if "tag" not in v:
+                tag = next((x for x in v.values() if isinstance(x, str) and TAG_RE.fullmatch(x)), None)
+            ids.append((name, tag, v.get("seq") if "tag" in v else v.get("n")))
         res["idents"] = ids
         res["descriptor_lines"] = ndesc
         return res
@@ -337,6 +386,7 @@ def independent_read(fam, codec, path):
             rows = list(csv.reader(f))
         res["tags"] = [c for row in rows for c in row if TAG_RE.fullmatch(c)]
         res["rows"] = len(rows)
+        res["rows_data"] = rows
         return res
     if fam == "line":
         with open(path, "rb") as f:
@@ -424,6 +474,36 @@ def inspect_file(fam, codec, path, scheme=None, skip_reader=False):
 SQLITE_SLOTS = ("tag", "seq", "blob", "when", "ratio")  # slots SQLite gives back unchanged for this record family
 
 
+def csv_row_problems(rows, expected):
+    """Row integrity of a CSV file against the records it should hold: every row is either the header of the record type
+    that follows or one complete record (one cell per field incl. the four reserved ones, the free-text cell intact)."""
+    out = []
+    by_tag = {ident(o)[1]: o for o in expected}
+    for ri, row in enumerate(rows):
+        tags = [c for c in row if TAG_RE.fullmatch(c)]
+        if len(tags) == 1 and tags[0] in by_tag:
+            o = by_tag[tags[0]]
+            slots = observe.slots_of(o)
+            note = slots.get("note")
+            if len(row) != len(o[3]):
+                out.append(("indep-mismatch", "a CSV row does not have one cell per field (a value broke the row)",
+                            {"row": ri, "cells": len(row), "fields": len(o[3]), "row_head": row[:4]}))
+            elif note is not None and note[2] not in row:
+                out.append(("indep-mismatch", "the free-text cell of a CSV row is not the value written", {"row": ri, "written": note[2], "row_head": row[:4]}))
+        elif not tags:
+            names = {tuple(k for k, _ in o[3]) for o in expected}
+            if tuple(row) not in names:
+                out.append(("indep-mismatch", "a CSV row is neither a header nor a record (a value broke the row)", {"row": ri, "row_head": row[:4]}))
+    return out[:5]
+
+
+def text_obs(view, expected_pool):
+    """For formats without a reader (csv / line / text): the observations of the records whose tags the independent scan found,
+    in file order (None for a tag that was never written)."""
+    by_tag = {ident(o)[1]: o for o in expected_pool}
+    return [by_tag.get(t) for t in (view.indep or {}).get("tags", [])]
+
+
 def diff_view(fam, view, expected):
     """Differences between what is on disk and the expected observations (in write order).
     -> list of (code, message, detail); codes: missing-file, reader-rejects, reader-mismatch, indep-rejects,
@@ -483,6 +563,8 @@ def diff_view(fam, view, expected):
             if e != g:
                 out.append(("indep-mismatch", "rows seen by sqlite3 differ from the records written",
                             {"written": {k: len(v) for k, v in e.items()}, "seen": {k: len(v) for k, v in g.items()}}))
+        elif fam == "csv" and ind["tags"] == exp_tags:
+            out.extend(csv_row_problems(ind["rows_data"], expected))
         else:
             if ind["tags"] != exp_tags:
                 out.append(("indep-mismatch", "rows/blocks/lines in the text output differ from the records written",
